@@ -11,7 +11,8 @@
 EXTENDS CrystalObject, TLC, Json, IOUtils
 
 CONSTANT NBlocks
-Traces == JsonDeserialize(IOEnv.TRACE_FILE).traces
+ASSUME TLCSet(1, JsonDeserialize(IOEnv.TRACE_FILE).traces)     \* parsed once, not once per worker
+Traces == TLCGet(1)
 VARIABLES blk, tid, l, st, memo, known, verdict
 vars == <<blk, tid, l, st, memo, known, verdict>>
 
